@@ -431,6 +431,22 @@ func ggGenerate(d ggDraw, tier string) *ggCase {
 	if d(3) == 2 {
 		add("tokenizer.ggml.token_type", ggRandArray(d, ggufTypeInt32, false))
 	}
+	// rarely a string longer than the decoder's 16 KiB scratch buffer (separate code path),
+	// or one that makes the file longer than the 32 KiB read buffer (several Reads)
+	switch d(24) {
+	case 23:
+		add("general.description", strv(ggLongString(16<<10+37)))
+	case 22:
+		add("general.description", strv(ggLongString(40000)))
+	case 21:
+		if tier == "thorough" {
+			v := ggVal{T: ggufTypeArray, AT: ggufTypeString}
+			for i := 0; i < 1030; i++ {
+				v.A = append(v.A, ggVal{T: ggufTypeString, S: ggStrs[i%len(ggStrs)]})
+			}
+			add("tokenizer.ggml.merges", v)
+		}
+	}
 	// extra keys: every scalar type and arrays of every element type
 	nextra := d(7)
 	for i := 0; i < nextra; i++ {
@@ -509,6 +525,14 @@ func ggGenerate(d ggDraw, tier string) *ggCase {
 		c.img, c.fields = f.assemble()
 	}
 	return c
+}
+
+func ggLongString(n int) string {
+	b := make([]byte, n)
+	for i := range b {
+		b[i] = 'a' + byte(i%26)
+	}
+	return string(b)
 }
 
 type ggMemWS struct{ buf bytes.Buffer }
